@@ -50,6 +50,7 @@ fn regress(id: &str, ctx: &Ctx, f: fn(&Ctx, &Value)) {
 }
 
 props! {
+    "C02" => c02,
     "C03" => c03,
     "C05" => c05,
     "C06" => c06,
